@@ -54,14 +54,19 @@ Qed.
 Lemma num_exp_value x : num_exp x = true -> exists m, expo_value x = XNum m.
 Proof. unfold num_exp. destruct (expo_value x) as [m| |]; try discriminate. exists m; reflexivity. Qed.
 
+(* equivalent units: same dimension part (radian is not a dimension) and same scale *)
+Definition eqv (a b : uvec) : Prop := ueq (dims a) (dims b) /\ ueq (scale a) (scale b).
+Lemma eqv_sym a b : eqv a b -> eqv b a.
+Proof. intros [H1 H2]. split; apply ueq_sym; assumption. Qed.
+Lemma eqv_trans a b c : eqv a b -> eqv b c -> eqv a c.
+Proof. intros [H1 H2] [H3 H4]. split; eapply ueq_trans; eassumption. Qed.
+
 (* ---- consistency (CellML rules), units of operands as inferred -------------------------------------- *)
 Section Consistent.
   Variable G : env.
 
   Definition units_equiv (a b : expr) : Prop :=
-    exists u v, unit_of G a = Some u /\ unit_of G b = Some v /\ ueq (expand G u) (expand G v).
-  (* exponent: the pint unit is the empty container *)
-  Definition unit_is_empty (x : expr) : Prop := exists u, unit_of G x = Some u /\ ueq u uone.
+    exists u v, unit_of G a = Some u /\ unit_of G b = Some v /\ eqv (expand G u) (expand G v).
   (* function argument: no dimensions and SI scale 1 *)
   Definition unit_is_one (x : expr) : Prop := exists u, unit_of G x = Some u /\ dim_dimless G u = true.
 
@@ -71,7 +76,7 @@ Section Consistent.
     | EAdd l => (fix all (l : list expr) := match l with [] => True | x :: r => consistent x /\ all r end) l
                 /\ (forall x y, In x l -> In y l -> units_equiv x y)
     | EMul l => (fix all (l : list expr) := match l with [] => True | x :: r => consistent x /\ all r end) l
-    | EPow b x => consistent b /\ consistent x /\ unit_is_empty x
+    | EPow b x => consistent b /\ consistent x /\ unit_is_one x
     | EFn f l => (fix all (l : list expr) := match l with [] => True | x :: r => consistent x /\ all r end) l
                  /\ (f = fn_abs \/ f = fn_floor \/ f = fn_ceiling \/ forall x, In x l -> unit_is_one x)
     | ERel _ a b => consistent a /\ consistent b /\ units_equiv a b
@@ -118,8 +123,8 @@ Proof.
   unfold unit_of. destruct (infer G e) as [r| | |]; try discriminate. intros [= <-]. exists r. split; reflexivity.
 Qed.
 
-Lemma sem_equiv_ueq G a b : sem_equiv G a b = true -> ueq (expand G a) (expand G b).
-Proof. unfold sem_equiv. rewrite ueqb_spec. exact (fun H => H). Qed.
+Lemma sem_equiv_ueq G a b : sem_equiv G a b = true -> eqv (expand G a) (expand G b).
+Proof. unfold sem_equiv. intros H. apply equivb_spec. exact H. Qed.
 
 (* every pair of operands is equivalent when all are equivalent to the first *)
 Lemma all_equiv_pairs G {X} (f : X -> expr) (l : list X) (rs : list qu) (r0 : qu) :
@@ -128,14 +133,14 @@ Lemma all_equiv_pairs G {X} (f : X -> expr) (l : list X) (rs : list qu) (r0 : qu
   forall x y, In x (map f l) -> In y (map f l) -> units_equiv G x y.
 Proof.
   intros H2 Hall.
-  assert (K : forall x, In x (map f l) -> exists r, infer G x = UOk r /\ ueq (expand G (fst r0)) (expand G (fst r))).
+  assert (K : forall x, In x (map f l) -> exists r, infer G x = UOk r /\ eqv (expand G (fst r0)) (expand G (fst r))).
   { clear -H2 Hall. induction H2 as [|x r l rs Hx _ IH]; cbn [map In]; [contradiction|].
     inversion Hall as [|? ? Hr Hall']; subst. intros x' [<-|Hin].
     - exists r. split; [exact Hx | apply sem_equiv_ueq; exact Hr].
     - apply IH; assumption. }
   intros x y Hx Hy. destruct (K x Hx) as [rx [Ix Ex]]. destruct (K y Hy) as [ry [Iy Ey]].
-  exists (fst rx), (fst ry). repeat split; try (apply unit_of_ok; assumption).
-  eapply ueq_trans; [apply ueq_sym; exact Ex | exact Ey].
+  exists (fst rx), (fst ry). split; [apply unit_of_ok; assumption|]. split; [apply unit_of_ok; assumption|].
+  eapply eqv_trans; [apply eqv_sym; exact Ex | exact Ey].
 Qed.
 
 Section ConsistentP.
@@ -189,8 +194,7 @@ Section ConsistentP.
       + apply (proj1 IHe2 rx Hx (num_guard G _ _ Hm)).
       + exists (fst rx). split; [apply unit_of_ok; exact Hx|].
         unfold infer_pow in Hi. destruct rb as [ub mb].
-        destruct (syn_dimless (fst rx)) eqn:Hd; [|discriminate]. unfold syn_dimless in Hd.
-        apply ueqb_spec. exact Hd.
+        destruct (dim_dimless G (fst rx)) eqn:Hd; [reflexivity | discriminate].
     - (* Fn *)
       rewrite infer_fn_eq in Hi. apply bindr_ok in Hi as [rs [Hrs Hs]]. apply infers_Forall2 in Hrs.
       apply andb_prop in Hg as [Hg Hargs]. cbn [consistent]. split.
@@ -211,7 +215,7 @@ Section ConsistentP.
       cbn [consistent]. repeat split.
       + apply (proj1 IHe1 ra Ia Hga).
       + apply (proj1 IHe2 rb Ib Hgb).
-      + exists u, v. repeat split; try assumption. apply sem_equiv_ueq. exact Heq.
+      + exists u, v. split; [exact Hu|]. split; [exact Hv|]. apply sem_equiv_ueq. exact Heq.
     - (* Bool, condition mode *)
       cbn [consistent]. change (call G l). clear -H Hg.
       induction H as [|x l Px _ IH]; cbn [call]; [exact I|].
@@ -402,11 +406,11 @@ Section Sound.
       cbn [infer] in Hi. apply bindr_ok in Hi as [rb [Hb Hi]]. apply bindr_ok in Hi as [rx [Hx Hi]].
       apply andb_prop in Hg as [Hgb Hl]. destruct (num_exp_value _ Hl) as [m Hm].
       destruct rb as [ub mb]. unfold infer_pow in Hi. rewrite (expo_infer_of_value G _ _ Hm) in Hi.
-      destruct (syn_dimless (fst rx)) eqn:Hdx; [|discriminate]. cbn [negb] in Hi.
+      destruct (dim_dimless G (fst rx)) eqn:Hdx; [|discriminate]. cbn [negb] in Hi.
       apply bindr_ok in Hi as [mr [_ Hi]]. injection Hi as <-. cbn [fst].
       pose proof (expo_sound e2 m Hm) as HxN.
       assert (HxSI : eSI e2 = Some (VR (Q2R m))).
-      { rewrite <- HxN. apply (rel_at_one e2 (fst rx)); [apply sc_syn_dimless; exact Hdx|].
+      { rewrite <- HxN. apply (rel_at_one e2 (fst rx)); [apply dim_dimless_sc; exact Hdx|].
         apply (proj1 IHe2 rx Hx (num_guard G _ _ Hm)). }
       pose proof (proj1 IHe1 (ub, mb) Hb Hgb) as Hrel. cbn [fst] in Hrel.
       unfold rel_at, evalN, evalSI in *. cbn [eval]. rewrite Hrel, HxN, HxSI.
@@ -519,7 +523,7 @@ Lemma infer_error_kinds :
   (forall G q, infer G ETrue <> UOk q /\ infer G EFalse <> UOk q) /\
   (forall G l rs r0, infers G l = UOk rs -> hd_error rs = Some r0 ->
      forallb (fun r => sem_equiv G (fst r0) (fst r)) rs = false -> infer G (EAdd l) = UErr EInvalidUnits) /\
-  (forall G b x rb rx, infer G b = UOk rb -> infer G x = UOk rx -> syn_dimless (fst rx) = false ->
+  (forall G b x rb rx, infer G b = UOk rb -> infer G x = UOk rx -> dim_dimless G (fst rx) = false ->
      infer G (EPow b x) = UErr EMustBeDimensionless).
 Proof.
   repeat split.
